@@ -1213,6 +1213,10 @@ func main() {
 		fmt.Fprintln(os.Stderr, "write:", err)
 		os.Exit(1)
 	}
+	if err := ex.WriteIfChanged(args.Out, "C02BodyScans.lean", x.bodyScanFacts()); err != nil {
+		fmt.Fprintln(os.Stderr, "write:", err)
+		os.Exit(1)
+	}
 	fmt.Printf("c02: %d while / %d do / %d for loops, %d foreach bodies, %d scans, store ops %v, %d notes, %d unknown reasons\n",
 		len(whileL), len(doL), len(forL), len(foreach), len(scans), store.initOps, len(x.notes), len(why))
 	for _, n := range x.notes {
